@@ -54,6 +54,12 @@ def NodePc.exec : NodePc → Bool
   | .evWait => false
   | _ => true
 
+/-- the points at which a node task rests when the collaborators do not suspend: awaiting the body, the retry timer -/
+def NodePc.rests : NodePc → Bool
+  | .body _ _ _ => true
+  | .sleep _ _ _ => true
+  | _ => false
+
 /-- a live task that is executing `n` (it marked `n` as processed) -/
 def Executor (s : St) (n : Node) : Prop :=
   ∃ (i : Nat) (tk : Task), s.tasks[i]? = some tk ∧ tk.live ∧ ∃ (d : DagRef) (f : Bool) (pc : NodePc),
@@ -129,7 +135,7 @@ inductive TaskOK (P : Program) (depth : Node → Nat) (s : St) : Task → Prop
       s.proc q = true → TaskOK P depth s tk
   | nodeExec (tk : Task) (d : DagRef) (q : Node) (pc : NodePc) : tk.name = .node q → P.g.isSwitch q = false →
       tk.frames = [.node d q false pc] → pc ≠ .start → pc ≠ .evWait → tk.live → s.proc q = true → s.res q = none →
-      TaskOK P depth s tk
+      pc.rests = true → TaskOK P depth s tk
   | nodeDone (tk : Task) (q : Node) (r : TaskRes) : tk.name = .node q → P.g.isSwitch q = false → tk.frames = [] →
       tk.st = .done r → r ≠ .cancelled → s.evSet q = true → TaskOK P depth s tk
   | swStart (tk : Task) (d : DagRef) (S : Node) : tk.name = .node S → P.g.isSwitch S = true →
